@@ -132,7 +132,7 @@ def run_leg(prop, leg, tier, seed, log):
                 "progress": os.path.join(scratch, "progress-%d" % w),
                 "digest_every": leg.get("digest_every", 50),
             }
-            procs.append(_spawn(py, job, scratch, "w%d" % w))
+            procs.append(_spawn(py, job, scratch, "w%d" % w, hashseed=str(leg.get("hashseed", "0"))))
         deadline = t0 + budget + 240
         pending = list(procs)
         restarts = {}
